@@ -148,6 +148,9 @@ func GenBlock(t *rapid.T, o Opt) *Block {
 	if rapid.Bool().Draw(t, "shuffle?") {
 		b.ShuffleSeed = rapid.Int64Range(1, 1<<30).Draw(t, "shuffle")
 	}
+	if !o.Small && rapid.IntRange(0, 4).Draw(t, "exotic?") == 0 {
+		b.Exotic = rapid.Int64Range(1, 1<<30).Draw(t, "exotic")
+	}
 	nx := rapid.IntRange(0, 2).Draw(t, "nextra")
 	for i := 0; i < nx; i++ {
 		b.ExtraStrings = append(b.ExtraStrings, gStr(t, "extra"))
@@ -396,6 +399,9 @@ func GenHeader(t *rapid.T) *Header {
 	for i := 0; i < no; i++ {
 		h.Optional = append(h.Optional, rapid.SampledFrom([]string{"Sort.Type_then_ID", "Has_Metadata", "LocationsOnWays", "x", "日本"}).Draw(t, "opt"))
 	}
+	if rapid.IntRange(0, 4).Draw(t, "hexotic?") == 0 {
+		h.Exotic = rapid.Int64Range(1, 1<<30).Draw(t, "hexotic")
+	}
 	h.WritingProgram = optStr(t, "program")
 	h.Source = optStr(t, "source")
 	h.ReplTimestamp = optI64(t, "rts", 0, 4102444800)
@@ -504,6 +510,9 @@ func (f *File) Classes() []string {
 		}
 		if cur.Gran || cur.Off || cur.DGran {
 			add("non-default-granularity-or-offset")
+		}
+		if b.Exotic != 0 {
+			add("non-canonical-field-order-or-unknown-fields")
 		}
 		if i == 0 {
 			continue
